@@ -225,6 +225,9 @@ pub struct World {
     pub last_exit_reads: u64,
     /// Clock-read index at the entry of the last two `is_readable` calls (C08 slack).
     pub readable_marks: [u64; 3],
+    /// Round for which `burst_binds` counts, and (successful, failed-by-burst) TCP binds in it.
+    pub burst_round: u32,
+    pub burst_binds: (u32, u32),
     pub site_counts: Vec<(Site, u32)>,
     pub counters: Counters,
     pub full_hash: Fnv,
@@ -271,6 +274,8 @@ impl World {
             last_exit: clock::now(),
             last_exit_reads: 0,
             readable_marks: [0; 3],
+            burst_round: 0,
+            burst_binds: (0, 0),
             site_counts: Vec::new(),
             counters: Counters::default(),
             full_hash: Fnv::default(),
@@ -353,7 +358,21 @@ impl World {
                 self.counters.add("fault.stall", 1);
                 self.ev(20, 0, d);
             }
-            if site == Site::Bind
+            let stream_bind = site == Site::Bind && sock.is_some_and(|s| self.socks[s].kind == SockKind::Stream);
+            let in_burst = stream_bind
+                && self.round_idx >= self.sc.faults.addr_in_use_from_round
+                && self.sc.faults.addr_in_use_burst.is_some_and(|(skip, len)| {
+                    if self.burst_round != self.round_idx {
+                        self.burst_round = self.round_idx;
+                        self.burst_binds = (0, 0);
+                    }
+                    self.burst_binds.0 >= skip && self.burst_binds.1 < len
+                });
+            if in_burst {
+                self.burst_binds.1 += 1;
+                self.counters.add("fault.addr_in_use_burst", 1);
+                errno = libc::EADDRINUSE;
+            } else if site == Site::Bind
                 && self.sc.faults.addr_in_use_pm > 0
                 && self.round_idx >= self.sc.faults.addr_in_use_from_round
                 && sock.is_some_and(|s| self.socks[s].kind == SockKind::Stream || (self.sc.faults.addr_in_use_udp && self.socks[s].kind == SockKind::UdpSend && !self.socks[s].raw))
@@ -362,6 +381,13 @@ impl World {
                 errno = libc::EADDRINUSE;
             } else if self.sc.faults.sock_pm > 0 && self.tape.chance(self.sc.faults.sock_pm) {
                 errno = self.pick_errno(site);
+            }
+            if stream_bind && errno == ERRNO_NONE && self.sc.faults.addr_in_use_burst.is_some() {
+                if self.burst_round != self.round_idx {
+                    self.burst_round = self.round_idx;
+                    self.burst_binds = (0, 0);
+                }
+                self.burst_binds.0 += 1;
             }
         }
         if errno != ERRNO_NONE {
